@@ -22,6 +22,12 @@ def cell_for(d, cell):
     L = [8.0, 9.0, 10.0][:d]
     if cell == "orth":
         return A.hmat_tri(L, [0, 0, 0][: (1 if d == 2 else 3)])
+    if cell == "orthp":  # x is the LONGEST edge, y the shortest (L_min must not be read from axis 0)
+        return A.hmat_tri([10.0, 8.0, 9.0][:d], [0, 0, 0][: (1 if d == 2 else 3)])
+    if cell == "orthz":  # z (3D) shortest
+        return A.hmat_tri([9.0, 10.0, 8.0][:d], [0, 0, 0][: (1 if d == 2 else 3)])
+    if cell == "trip":
+        return A.hmat_tri([10.0, 8.0, 9.0][:d], [1.5] if d == 2 else [1.5, 1.0, -2.0])
     if cell == "tri+":
         return A.hmat_tri(L, [1.5] if d == 2 else [1.5, 1.0, -2.0])
     if cell == "tri-":
@@ -58,7 +64,7 @@ def frames_for(seed, base, F, H, d):
 def gen_routing(tier, seed):
     geoms = [(3, "orth", 0.1)]
     if tier == "thorough":
-        geoms = [(3, "orth", 0.1), (2, "orth", 0.1), (3, "tri-", 0.1), (2, "tri+", 0.1), (3, "orth", 0.13), (2, "orth", 0.13)]
+        geoms = [(3, "orth", 0.1), (2, "orth", 0.1), (3, "tri-", 0.1), (2, "tri+", 0.1), (3, "orth", 0.13), (2, "orth", 0.13), (3, "orthp", 0.1), (2, "trip", 0.1)]
     for (d, cell, w) in geoms:
         H = cell_for(d, cell)
         pos = routing_positions(seed, d, w, H)
@@ -94,7 +100,7 @@ def placements(seed, d, tier):
 
 
 OPTS = {
-    "cell": ["orth", "tri+", "tri-"],
+    "cell": ["orth", "orthp", "orthz", "tri+", "tri-", "trip"],
     "w": [0.25, 0.5, 0.3],
     "F": [1, 2, 3],
     "K": [1, 2],
@@ -210,9 +216,9 @@ def subs(tier, seed):
             rule="six particles at fixed generic positions whose 15 pair distances lie in 15 different bins; every surjective "
                  "map of the six particles onto K species, K=1..6 (4683 maps) per geometry; every bin of every column "
                  "compared with the double-loop reference; non-trivial = populated bins >= 2 per column",
-            bounds={"type_maps": 4683, "geometries": 1 if tier == "quick" else 6}),
+            bounds={"type_maps": 4683, "geometries": 1 if tier == "quick" else 8}),
         Sub("C03.geometry", gen_geometry, run,
-            rule="options {2D,3D} x {orth,tri+,tri-} x widths {0.25,0.5,0.3} x frames {1,2,3} x all masks x K {1,2}; "
+            rule="options {2D,3D} x {orth (x shortest), orthp (y shortest), orthz (z shortest), tri+, tri-, trip} x widths {0.25,0.5,0.3} x frames {1,2,3} x all masks x K {1,2}; "
                  + ("full product" if tier == "thorough" else "all option vectors with <= 2 deviations from (3D, orth, 0.25, F=1, K=1, ppp=1)")
                  + "; placements = all N-subsets (N=2..4) of a jittered 2^d lattice + exact lattice + cluster + ideal gas"
                  + (" + all 2-,3-subsets of a jittered 3^d lattice (default options)" if tier == "thorough" else ""),
